@@ -233,4 +233,66 @@ def repMarkupGo (rep : Char → Bool) : Bool → List FEv → Bool
 
 def repMarkup (rep : Char → Bool) (fs : List FEv) : Bool := repMarkupGo rep false fs
 
+/-! ### parsing the output again (for idempotence)
+
+`reparseX` is the specification-side account of what `XMLParser` followed by
+`EmptyTagFilter` delivers for a token list: for every start tag the START_NS
+events of its declarations (in attribute order; `xmlns=""` is reported with
+`None`), the START with resolved names and the ordinary attributes, and after
+the END the END_NS events in reverse order; an empty-element tag gives EMPTY. -/
+
+structure PSt where
+  open_ : List (Str × QName × Reader.Scope × List Str)
+  scope : Reader.Scope
+  deriving Repr
+
+def PSt.init : PSt := ⟨[], Reader.baseScope⟩
+
+def nsEvents (ds : Reader.Scope) : List XEv :=
+  ds.map fun d => .ev (.startNs d.1 (if d.2.isEmpty then noneUri else d.2))
+
+def endNsEvents (ps : List Str) : List XEv := ps.reverse.map fun p => .ev (.endNs p)
+
+def reparseX : PSt → List FEv → Option (List XEv)
+  | _, [] => some []
+  | st, .start n attrs :: es =>
+      match Reader.resolveTag st.scope n attrs, Reader.splitAttrs attrs with
+      | some (q, ras, sc'), some (ds, _) =>
+          (reparseX ⟨(n, q, st.scope, ds.map Prod.fst) :: st.open_, sc'⟩ es).map
+            (nsEvents ds ++ [.ev (.start q ras)] ++ ·)
+      | _, _ => none
+  | st, .empty n attrs :: es =>
+      match Reader.resolveTag st.scope n attrs, Reader.splitAttrs attrs with
+      | some (q, ras, _), some (ds, _) =>
+          (reparseX st es).map (nsEvents ds ++ [.empty q ras] ++ endNsEvents (ds.map Prod.fst) ++ ·)
+      | _, _ => none
+  | st, .end_ n :: es =>
+      match st.open_ with
+      | (n', q, sc, ps) :: rest =>
+          if n = n' then (reparseX ⟨rest, sc⟩ es).map ([.ev (.end_ q)] ++ endNsEvents ps ++ ·) else none
+      | [] => none
+  | st, .other e :: es => (reparseX st es).map (.ev e :: ·)
+
+/-- the hypothesis of `ser_idempotent_partial`, checked by running the flattener:
+    START_NS events come in runs directly in front of their start tag, never
+    carry the empty string (the parser reports `xmlns=""` with `None`), and the
+    flattener never has to make up a declaration (every namespace used is bound
+    by the stream's own declarations) — what the parser delivers for a
+    well-formed document.  `inRun`: a START_NS run is open. -/
+def idemGo (pref : List (Str × Str)) : FSt → Bool → List XEv → Bool
+  | _, inRun, [] => !inRun
+  | st, inRun, x :: xs =>
+      (match x with
+       | .ev (.startNs _ u) => !u.isEmpty
+       | .ev (.start t a) =>
+           decide ((flatStart pref st t a).2.2 =
+             takePending { bindings := st.bindings, declared := [], counter := st.counter } st.pending)
+       | .empty t a =>
+           decide ((flatStart pref st t a).2.2 =
+             takePending { bindings := st.bindings, declared := [], counter := st.counter } st.pending)
+       | _ => !inRun) &&
+      idemGo pref (flatStep pref st x).1 (match x with | .ev (.startNs _ _) => true | _ => false) xs
+
+def idemOK (pref : List (Str × Str)) (xs : List XEv) : Bool := idemGo pref FSt.init false xs
+
 end Genshi.Xml
